@@ -144,7 +144,8 @@ impl Drop for EventSender<'_> {
             kind: EventKind::Done,
             co: None,
         });
-        self.cqueue.cnt.fetch_sub(1, Ordering::Relaxed);
+        // `Release`: the Done push above must be visible to the poller that sees the new cnt
+        self.cqueue.cnt.fetch_sub(1, Ordering::Release);
         if let Some(w) = self.cqueue.to_wake.take() {
             w.unpark();
         }
@@ -250,8 +251,18 @@ impl Cqueue {
             match self.ev_queue.pop() {
                 Some(mut ev) => run_ev!(ev),
                 None => {
-                    if self.cnt.load(Ordering::Relaxed) == 0 {
-                        return Err(PollError::Finished);
+                    if self.cnt.load(Ordering::Acquire) == 0 {
+                        // the last select coroutines may have pushed their Done events
+                        // after the empty pop above and before the cnt check. a Done event
+                        // is the only thing that makes us join its coroutine, which is still
+                        // running while it drops its `EventSender`, so we must not report
+                        // `Finished` before all of them are consumed. every Done push
+                        // happens before its cnt decrease, thus with cnt == 0 an empty
+                        // queue here means all the Done events were processed
+                        match self.ev_queue.pop() {
+                            Some(mut ev) => run_ev!(ev),
+                            None => return Err(PollError::Finished),
+                        }
                     }
                 }
             }
